@@ -1149,3 +1149,18 @@ package op
 //@   ensures html-template: globalType("op.formPostTmpl", "*html/template.Template")
 //@   ensures rendered-by-template: err == nil ==> called("html/template.Template.Execute") && callres("html/template.Template.Execute", 0) == nil
 //@        && callarg("html/template.Template.Execute", 0) == formPostTmpl
+
+// ---- C12: the provider's token sealing uses the whole 32-byte key, the same in both directions ----
+//@ func op.NewAESCrypto
+//@   modifies nothing
+//@   ensures whole-key: typeis(result, "*aesCrypto") && as(result, "*aesCrypto") != nil && len(as(result, "*aesCrypto").key) == 32
+//@ func op.aesCrypto.Encrypt
+//@   requires c != nil
+//@   modifies nothing
+//@   ensures seals-under-own-key: callarg("crypto.EncryptAES", 0) == s && callarg("crypto.EncryptAES", 1) == c.key
+//@        && result0 == callres("crypto.EncryptAES", 0) && result1 == callres("crypto.EncryptAES", 1)
+//@ func op.aesCrypto.Decrypt
+//@   requires c != nil
+//@   modifies nothing
+//@   ensures opens-under-own-key: callarg("crypto.DecryptAES", 0) == s && callarg("crypto.DecryptAES", 1) == c.key
+//@        && result0 == callres("crypto.DecryptAES", 0) && result1 == callres("crypto.DecryptAES", 1)
